@@ -106,6 +106,24 @@ def gen_case(rng, tier):
         late = M(items)
         docs[rng.randrange(1, len(docs))]['items'].append(['um', M([['lst', late]]) if nest else late])
         unmentioned = {'path': ['um', 'lst'] if nest else ['um'], 'expected': [rewritten.get(j, orig[j]) for j in range(n_el) if j not in removed]}
+    if unmentioned is None and rng.random() < 0.12 and not any(emit.has_flags(d) for d in docs) and 'um2' not in [k for d in docs for k, _ in d['items']]:
+        # the same for a list of mappings below an *inherited* !merge (tag on an ancestor mapping or on the document): elements
+        # combine index-wise and key-wise, what the newer elements do not mention stays
+        olds = [M([['n', emit.S(j)], ['act', emit.S(f'A{j}')]]) for j in range(rng.choice([2, 3]))]
+        news = [M([['n', emit.S(80 + j)]]) for j in range(rng.randrange(1, len(olds) + 1))]
+        deep = rng.random() < 0.5
+        docs[0]['items'].append(['um2', M([['net', M([['layers', emit.L(olds)]])]]) if deep else M([['layers', emit.L(olds)]])])
+        late = M([['net', M([['layers', emit.L(news)]])]]) if deep else M([['layers', emit.L(news)]])
+        how = rng.choice(['on_um2', 'on_um2', 'on_net'] if deep else ['on_um2'])
+        if how == 'on_um2':
+            late['del'] = False
+        else:
+            late['items'][0][1]['del'] = False
+        if len(docs) < 2:
+            docs.append(M([]))
+        docs[rng.randrange(1, len(docs))]['items'].append(['um2', late])
+        unmentioned = {'path': ['um2', 'net', 'layers'] if deep else ['um2', 'layers'],
+                       'expected': [{'n': 80 + j, 'act': f'A{j}'} if j < len(news) else {'n': j, 'act': f'A{j}'} for j in range(len(olds))]}
     coincide = None
     if rng.random() < 0.2:
         # a key of a deleting node that merely has the same *name* as a key somewhere below an older sibling container: renaming it
